@@ -4,8 +4,10 @@ import (
 	"bytes"
 	"compress/gzip"
 	"context"
+	"encoding/json"
 	"errors"
 	"fmt"
+	"google.golang.org/protobuf/types/known/wrapperspb"
 	"io"
 	"net/http/httptest"
 	"strings"
@@ -32,6 +34,7 @@ func C07(r *h.Run) {
 	c07GzipTruncated(r, rng.Fork("gzip-truncated"))
 	c07NilCompression(r)
 	c07ReceiveAfterFailure(r)
+	c07InvalidUTF8JSON(r)
 	for i := 0; i < r.N(700, 9000); i++ {
 		proto := protos[rng.Intn(3)]
 		kind := kinds[rng.Intn(4)]
@@ -598,6 +601,79 @@ func c07ReceiveAfterFailure(r *h.Run) {
 			}
 			if finalErr == nil || code != "invalid_argument" {
 				r.Fail(h.Failure{Key: "serve/silent-success", Family: "receive_after_failure", What: "the malformed request did not reach the peer as invalid_argument", Input: in, Actual: fmt.Sprint("Err()=", finalErr, " peer=", code)})
+			}
+		}
+	}
+}
+
+// c07InvalidUTF8JSON: a JSON payload that is not even valid UTF-8 is an undecodable payload like
+// any other: invalid_argument, in a response that is well-formed for the protocol (the error the
+// library builds quotes the offending bytes; it must still be able to send it).
+func c07InvalidUTF8JSON(r *h.Run) {
+	payloads := map[string][]byte{
+		"bare invalid bytes":           []byte("\xff\xfe"),
+		"object with invalid bytes":    []byte("{\"value\":\xff\xfe}"),
+		"string holding invalid bytes": []byte("\"ab\xffcd\""),
+	}
+	for _, proto := range []string{"connect", "grpc", "grpcweb"} {
+		for _, kind := range []string{"unary", "client"} {
+			for what, payload := range payloads {
+				calls := 0
+				var handler *connect.Handler
+				if kind == "unary" {
+					handler = connect.NewUnaryHandler("/verif.Svc/M", func(context.Context, *connect.Request[wrapperspb.StringValue]) (*connect.Response[wrapperspb.StringValue], error) {
+						calls++
+						return connect.NewResponse(&wrapperspb.StringValue{}), nil
+					})
+				} else {
+					handler = connect.NewClientStreamHandler("/verif.Svc/M", func(_ context.Context, s *connect.ClientStream[wrapperspb.StringValue]) (*connect.Response[wrapperspb.StringValue], error) {
+						for s.Receive() {
+							calls++
+						}
+						if err := s.Err(); err != nil {
+							return nil, err
+						}
+						return connect.NewResponse(&wrapperspb.StringValue{}), nil
+					})
+				}
+				unary := kind == "unary" && proto == "connect"
+				ct := map[string]string{"connect": "application/connect+json", "grpc": "application/grpc+json", "grpcweb": "application/grpc-web+json"}[proto]
+				body := h.Frame(0, payload)
+				if unary {
+					ct, body = "application/json", payload
+				}
+				req := httptest.NewRequest("POST", "/verif.Svc/M", bytes.NewReader(body))
+				req.ProtoMajor, req.ProtoMinor = 2, 0
+				req.Header.Set("Content-Type", ct)
+				rec := httptest.NewRecorder()
+				timedOut, p := withWatchdog(5*time.Second, func() { handler.ServeHTTP(rec, req) })
+				in := map[string]any{"proto": proto, "kind": kind, "codec": "json", "payload": what, "payload_hex": h.Hex(payload)}
+				r.Eval("json_invalid_utf8", fmt.Sprint(proto, kind, what))
+				if timedOut || p != nil {
+					r.Fail(h.Failure{Key: "serve/hang-or-panic", Family: "json_invalid_utf8", What: fmt.Sprint("hang or panic: ", p), Input: in})
+					continue
+				}
+				peerKind := "server"
+				if unary {
+					peerKind = "unary"
+				}
+				code, msg := peerError(proto, peerKind, rec)
+				r.Sample("json_invalid_utf8", map[string]any{"in": in, "status": rec.Code, "peer_code": code, "peer_message": msg, "body_hex": h.Hex(rec.Body.Bytes())})
+				if calls != 0 {
+					r.Fail(h.Failure{Key: "serve/undecodable-delivered", Family: "json_invalid_utf8", What: "user code received a message from a payload that is not valid UTF-8", Input: in})
+				}
+				wellFormed := true
+				switch {
+				case unary:
+					wellFormed = rec.Code != 200 && json.Valid(rec.Body.Bytes())
+				case proto == "connect":
+					fl, _, ok := lastFrameFlags(rec.Body.Bytes())
+					wellFormed = ok && fl&0x02 != 0
+				}
+				if code != "invalid_argument" || !wellFormed {
+					r.Fail(h.Failure{Key: "serve/undecodable-not-invalid-argument", Family: "json_invalid_utf8", What: "a JSON payload that is not valid UTF-8 did not reach the peer as invalid_argument in a well-formed response", Input: in,
+						Actual: fmt.Sprintf("HTTP %d, peer code %q, body %q", rec.Code, code, rec.Body.String())})
+				}
 			}
 		}
 	}
